@@ -1544,7 +1544,17 @@ def case_orf(rng, ctx):
     table, aa64, starts, desc = gen_table(rng, ctx)
     dna = gen_dna(rng, aa64, starts)
     met = rng.random() < 0.4
-    ctx.log("dna", dna, "met_start", met)
+    if (ctx.index or 0) % 200 == 199:
+        # a sequence whose codon and nucleotide positions pass 15 / 16 bits (standard table: ORFs stay short)
+        aa64, starts = R.ncbi_table(1)
+        table, desc = CodonTable.default_table(), "default"
+        starts = {"ATG"}
+        n_ = int(rng.choice([33000, 66000, 99000, 120000])) + int(rng.integers(0, 3))
+        dna = "".join(np.array(list("ACGT"))[rng.integers(0, 4, size=n_)])
+        ctx.op("translate_orf_long_sequence")
+        ctx.log("dna", "random, %d nt" % n_, "met_start", met)
+    else:
+        ctx.log("dna", dna, "met_start", met)
     s = make_dna(rng, dna)
     ctx.op("translate_orf" + ("_met" if met else ""))
     kw = {} if desc == "default" and rng.random() < 0.5 else {"codon_table": table}
